@@ -23,11 +23,12 @@ type c14Cfg struct {
 }
 
 type c14Op struct {
-	Op string `json:"op"` // log | push | reg
-	K  int    `json:"k"`
+	Op   string `json:"op"` // log | push | reg
+	K    int    `json:"k"`
+	Lane int    `json:"lane"`
 }
 
-func (o c14Op) String() string { return fmt.Sprintf("%s(%d)", o.Op, o.K) }
+func (o c14Op) String() string { return fmt.Sprintf("%s%d(%d)", o.Op, o.Lane, o.K) }
 
 type pushResult struct {
 	ok       bool
@@ -65,35 +66,77 @@ func (p *party) logOpen(g *protocoltypes.Group, data []byte) openResult {
 	return res
 }
 
+// c14Lane is one (group, sender device) pair whose messages reach the receiver through the log and as push payloads.
+type c14Lane struct {
+	g      *protocoltypes.Group
+	s      *c02Sender
+	pushes [][]byte
+}
+
+type c14Ref struct {
+	registered bool
+	opened     map[int]bool
+	centre     int
+}
+
 func c14Explore(rep *vrep.Report, seed int64, cfg c14Cfg, flipStates map[string]bool) {
-	g, R0, senders := c02BuildN(seed, c02Cfg{Kind: cfg.Kind, W: cfg.W, N: cfg.N, C: []int{cfg.C}, Senders: 1}, cfg.Refs)
-	s := senders[0]
-	must(R0.st.PutGroup(context.Background(), g))
-	// push payloads, sealed by the sender side for each message
-	pushes := make([][]byte, cfg.N)
-	for i := 0; i < cfg.N; i++ {
-		env, headers, err := s.p.st.OpenEnvelopeHeaders(s.envs[i], g)
+	var lanes []*c14Lane
+	var R0 *party
+	if cfg.Kind == "account+contact" {
+		// the same sender device (A1) seen by the same receiver (A2) in two groups: the account group of A and
+		// the contact group A<->B; counters overlap (both chains start at 0)
+		mk := func(a, d string) *party { return newParty(seed, a, d, cfg.W, cfg.Refs, false) }
+		R0 = mk("A", "2")
+		S := mk("A", "1")
+		gAcc, _, err := S.st.GetGroupForAccount()
 		must(err)
-		oos, err := s.p.st.SealOutOfStoreMessageEnvelope(cidOf(s.envs[i]), env, headers, g)
+		gAB, err := S.st.GetGroupForContact(mk("B", "1").accountPub())
 		must(err)
-		pushes[i] = mustBytes(proto.Marshal(oos))
+		for _, g := range []*protocoltypes.Group{gAcc, gAB} {
+			_ = R0.announce(g, R0.md(g).Member())
+			cs := &c02Sender{p: S, dev: mustBytes(S.md(g).Device().Raw())}
+			rm := R0.md(g).Member()
+			cs.anns = append(cs.anns, S.announce(g, rm))
+			for i := 1; i <= cfg.N; i++ {
+				pl := []byte(fmt.Sprintf("msg-%x-%d", g.PublicKey[:2], i))
+				cs.pay = append(cs.pay, pl)
+				cs.envs = append(cs.envs, S.seal(g, pl))
+				cs.anns = append(cs.anns, S.announce(g, rm))
+			}
+			lanes = append(lanes, &c14Lane{g: g, s: cs})
+		}
+	} else {
+		g, r0, senders := c02BuildN(seed, c02Cfg{Kind: cfg.Kind, W: cfg.W, N: cfg.N, C: []int{cfg.C}, Senders: 1}, cfg.Refs)
+		R0 = r0
+		lanes = append(lanes, &c14Lane{g: g, s: senders[0]})
 	}
-	type ref struct {
-		registered bool
-		opened     map[int]bool
-		centre     int
+	for _, ln := range lanes {
+		must(R0.st.PutGroup(context.Background(), ln.g))
+		// push payloads, sealed by the sender side for each message
+		for i := 0; i < cfg.N; i++ {
+			env, headers, err := ln.s.p.st.OpenEnvelopeHeaders(ln.s.envs[i], ln.g)
+			must(err)
+			oos, err := ln.s.p.st.SealOutOfStoreMessageEnvelope(cidOf(ln.s.envs[i]), env, headers, ln.g)
+			must(err)
+			ln.pushes = append(ln.pushes, mustBytes(proto.Marshal(oos)))
+		}
 	}
 	type node struct {
 		ds   *memDS
-		ref  ref
+		ref  []c14Ref
 		hist []c14Op
 	}
 	var ops []c14Op
-	for k := 1; k <= cfg.N; k++ {
-		ops = append(ops, c14Op{"log", k}, c14Op{"push", k})
+	for li := range lanes {
+		for k := 1; k <= cfg.N; k++ {
+			ops = append(ops, c14Op{"log", k, li}, c14Op{"push", k, li})
+		}
+		ops = append(ops, c14Op{"reg", cfg.C, li})
 	}
-	ops = append(ops, c14Op{"reg", cfg.C})
-	init := node{ds: R0.ds, ref: ref{opened: map[int]bool{}}}
+	init := node{ds: R0.ds}
+	for range lanes {
+		init.ref = append(init.ref, c14Ref{opened: map[int]bool{}})
+	}
 	seen := map[string]bool{init.ds.dump(): true}
 	frontier := []node{init}
 	var states, transitions int64 = 1, 0
@@ -103,7 +146,7 @@ func c14Explore(rep *vrep.Report, seed int64, cfg c14Cfg, flipStates map[string]
 		rep.Violation("C14/"+kind, fmt.Sprintf("cfg=%+v after %v then %v: %s", cfg, n.hist, op, desc),
 			map[string]interface{}{"cfg": cfg, "history": append(append([]c14Op{}, n.hist...), op)})
 	}
-	logOpenable := func(r ref, k int) bool {
+	logOpenable := func(r c14Ref, k int) bool {
 		return r.opened[k] || (r.registered && cfg.C < k && k <= cfg.C+cfg.W+len(r.opened))
 	}
 	for len(frontier) > 0 {
@@ -114,37 +157,44 @@ func c14Explore(rep *vrep.Report, seed int64, cfg c14Cfg, flipStates map[string]
 		}
 		// non-expanding probes in this state: mutated push payloads and an unknown group reference
 		depthKey := fmt.Sprintf("d%d", len(n.hist))
-		if n.ref.registered && !flipStates[depthKey] && len(n.hist) >= 1 {
+		if n.ref[0].registered && !flipStates[depthKey] && len(n.hist) >= 1 && len(lanes) == 1 {
 			flipStates[depthKey] = true
-			c14Mutations(rep, cfg, R0, n.ds, pushes[cfg.C], func(kind, desc string) { viol(kind, n, c14Op{"mutated-push", cfg.C + 1}, desc) })
+			c14Mutations(rep, cfg, R0, n.ds, lanes[0].pushes[cfg.C], func(kind, desc string) { viol(kind, n, c14Op{"mutated-push", cfg.C + 1, 0}, desc) })
 		}
 		for _, op := range ops {
+			ln := lanes[op.Lane]
+			g, s, pushes := ln.g, ln.s, ln.pushes
+			nref := n.ref[op.Lane]
 			ds := n.ds.clone()
 			R := R0.onDS(ds)
 			before := n.ds.dump()
-			nr := ref{n.ref.registered, map[int]bool{}, n.ref.centre}
-			for k := range n.ref.opened {
-				nr.opened[k] = true
+			newRefs := make([]c14Ref, len(n.ref))
+			for i, r := range n.ref {
+				newRefs[i] = c14Ref{r.registered, map[int]bool{}, r.centre}
+				for k := range r.opened {
+					newRefs[i].opened[k] = true
+				}
 			}
+			nr := &newRefs[op.Lane]
 			transitions++
 			switch op.Op {
 			case "reg":
 				err := R.st.RegisterChainKey(context.Background(), g, s.p.md(g).Device(), s.anns[cfg.C])
-				rep.Eval(fmt.Sprintf("reg/before=%v/err=%v", n.ref.registered, err != nil))
+				rep.Eval(fmt.Sprintf("reg/before=%v/err=%v", nref.registered, err != nil))
 				if err != nil {
 					viol("register-error", n, op, err.Error())
 				}
-				if n.ref.registered && ds.dump() != before {
+				if nref.registered && ds.dump() != before {
 					viol("reregistration-changed-state", n, op, "datastore changed")
 				}
-				if !n.ref.registered {
+				if !nref.registered {
 					nr.registered = true
 					nr.centre = cfg.C + cfg.W
 				}
 			case "log":
 				res := R.logOpen(g, s.envs[op.K-1])
-				must := logOpenable(n.ref, op.K)
-				mustFail := !n.ref.registered || op.K <= cfg.C
+				must := logOpenable(nref, op.K)
+				mustFail := !nref.registered || op.K <= cfg.C
 				rep.Eval(fmt.Sprintf("log/must=%v/mustfail=%v/ok=%v", must, mustFail, res.ok))
 				if must && !res.ok {
 					viol("log-open-refused", n, op, "openable message refused through the log (after pushes "+fmt.Sprint(n.hist)+"): "+res.err)
@@ -161,34 +211,36 @@ func c14Explore(rep *vrep.Report, seed int64, cfg c14Cfg, flipStates map[string]
 				}
 			case "push":
 				res := R.pushOpen(pushes[op.K-1])
-				inRef := n.ref.registered && n.ref.centre-cfg.Refs <= op.K && op.K <= n.ref.centre+cfg.Refs-1
-				must := logOpenable(n.ref, op.K) && inRef
-				rep.Eval(fmt.Sprintf("push/log-openable=%v/in-ref-window=%v/ok=%v/err=%s", logOpenable(n.ref, op.K), inRef, res.ok, res.err))
+				inRef := nref.registered && nref.centre-cfg.Refs <= op.K && op.K <= nref.centre+cfg.Refs-1
+				must := logOpenable(nref, op.K) && inRef
+				rep.Eval(fmt.Sprintf("push/log-openable=%v/in-ref-window=%v/ok=%v/err=%s", logOpenable(nref, op.K), inRef, res.ok, res.err))
 				if must && !res.ok {
-					viol("push-open-refused", n, op, fmt.Sprintf("push payload of an openable message inside the reference window (centre %d, +-%d) refused: %s", n.ref.centre, cfg.Refs, res.err))
+					viol("push-open-refused", n, op, fmt.Sprintf("push payload of an openable message inside the reference window (centre %d, +-%d) refused: %s", nref.centre, cfg.Refs, res.err))
 				}
-				if !n.ref.registered && res.ok {
+				if !nref.registered && res.ok {
 					viol("push-open-unregistered", n, op, "push payload opened without any chain key")
 				}
 				if res.ok {
 					if !bytes.Equal(res.payload, s.pay[op.K-1]) || !bytes.Equal(res.device, s.dev) || res.counter != uint64(op.K) || !bytes.Equal(res.groupPK, g.PublicKey) {
-						viol("push-wrong-content", n, op, fmt.Sprintf("opened to payload=%q counter=%d", res.payload, res.counter))
+						viol("push-wrong-content", n, op, fmt.Sprintf("opened to payload=%q counter=%d group=%x", res.payload, res.counter, res.groupPK))
 					}
-					if res.received != n.ref.opened[op.K] {
-						viol("already-received-flag", n, op, fmt.Sprintf("AlreadyReceived=%v but received through the log=%v", res.received, n.ref.opened[op.K]))
+					if res.received != nref.opened[op.K] {
+						viol("already-received-flag", n, op, fmt.Sprintf("AlreadyReceived=%v but received through the log=%v", res.received, nref.opened[op.K]))
 					}
 					nr.centre = op.K
 				} else if ds.dump() != before {
 					viol("failed-push-changed-state", n, op, "a refused push open modified the datastore")
 				}
 			}
-			// cross-path invariant, checked in every reached state for every message (non-expanding probes on clones):
-			// whatever the C02 reference says is log-openable must open through the log.
-			for k := 1; k <= cfg.N; k++ {
-				if logOpenable(nr, k) {
-					probe := R0.onDS(ds.clone())
-					if r := probe.logOpen(g, s.envs[k-1]); !r.ok {
-						viol("log-path-disturbed", n, op, fmt.Sprintf("after this step message %d is no longer openable through the log: %s", k, r.err))
+			// cross-path invariant, checked in every reached state for every message of every lane (non-expanding
+			// probes on clones): whatever the C02 reference says is log-openable must open through the log.
+			for li, l2 := range lanes {
+				for k := 1; k <= cfg.N; k++ {
+					if logOpenable(newRefs[li], k) {
+						probe := R0.onDS(ds.clone())
+						if r := probe.logOpen(l2.g, l2.s.envs[k-1]); !r.ok {
+							viol("log-path-disturbed", n, op, fmt.Sprintf("after this step message %d of lane %d is no longer openable through the log: %s", k, li, r.err))
+						}
 					}
 				}
 			}
@@ -200,7 +252,7 @@ func c14Explore(rep *vrep.Report, seed int64, cfg c14Cfg, flipStates map[string]
 			states++
 			nh := append(append([]c14Op{}, n.hist...), op)
 			lastHist = nh
-			frontier = append(frontier, node{ds: ds, ref: nr, hist: nh})
+			frontier = append(frontier, node{ds: ds, ref: newRefs, hist: nh})
 		}
 	}
 	rep.AddStates(states)
@@ -276,6 +328,18 @@ func TestVerifC14(t *testing.T) {
 	}
 	for _, cfg := range cfgs {
 		c14Explore(rep, seed, cfg, map[string]bool{"d3": !vrep.Thorough(), "d4": !vrep.Thorough(), "d5": true, "d6": true, "d7": true, "d8": true, "d9": true, "d10": true, "d11": true, "d12": true})
+	}
+	// two groups sharing the sender's device key (account + contact group of a multi-device account)
+	n2 := 2
+	if vrep.Thorough() {
+		n2 = 3
+	}
+	for w := 1; w <= 2; w++ {
+		for refs := 1; refs <= 2; refs++ {
+			cfg := c14Cfg{Kind: "account+contact", W: w, N: n2, Refs: refs, C: 0}
+			cfgs = append(cfgs, cfg)
+			c14Explore(rep, seed, cfg, map[string]bool{})
+		}
 	}
 	rep.Set("configurations", int64(len(cfgs)))
 }
